@@ -300,6 +300,17 @@ impl ZeroRegion {
             Some(ZeroRegion { ptr: p, len })
         }
     }
+    /// A private writable mapping starting with `prefix` (only the pages written to get memory).
+    pub fn with_prefix(len: usize, prefix: &[u8]) -> Option<ZeroRegion> {
+        // PROT_READ | PROT_WRITE = 3
+        let p = unsafe { mmap(std::ptr::null_mut(), len.max(1), 3, 0x4022, -1, 0) };
+        if p as isize == -1 || p.is_null() || prefix.len() > len {
+            None
+        } else {
+            unsafe { std::ptr::copy_nonoverlapping(prefix.as_ptr(), p, prefix.len()) };
+            Some(ZeroRegion { ptr: p, len })
+        }
+    }
     pub fn as_slice(&self) -> &[u8] {
         unsafe { std::slice::from_raw_parts(self.ptr, self.len) }
     }
